@@ -18,6 +18,8 @@ ItemsOfTemplate(t, i) ==
       [] t = "TieS" -> << It(77, "struct", i) >>
       [] t = "TieE" -> << It(77, "enum", i) >>
       [] t = "Ref"  -> << It(50 + i, "struct", i) >>        \* refers to the struct/marker of file 1
+      [] t = "Bad"  -> <<>>                                 \* a .rs file that cannot be read as text (not UTF-8): the run is refused, and
+                                                            \* that outcome - no output - must not depend on when the file is reached
       [] OTHER -> <<>>
 
 Perms(n) == {p \in [1..n -> 1..n] : \A i, j \in 1..n : i # j => p[i] # p[j]}
@@ -26,7 +28,8 @@ Next == UNCHANGED <<tree, perm>>
 
 Items == [i \in 1..NFiles |-> ItemsOfTemplate(tree[i], i)]
 Identity == [i \in 1..NFiles |-> i]
-PredictSame == OutputWith(Items, perm, SortConsts) = OutputWith(Items, Identity, SortConsts)
+HasBad == \E i \in 1..NFiles : tree[i] = "Bad"
+PredictSame == HasBad \/ OutputWith(Items, perm, SortConsts) = OutputWith(Items, Identity, SortConsts)
 
 Emit == PrintT(<<"REPLAY", ToJson([tree |-> tree, perm |-> perm, predict_same |-> PredictSame])>>)
 =============================================================================
